@@ -12,48 +12,45 @@
 
   Contents
   * `C07_no_lost_wakeup` — MAIN: for well-formed programs (`WF`: every wait/waitFor is followed by
-    `process`, DisableQueueNotify scopes are balanced, no `processIf` call) and the repaired
-    destructor, no reachable state has all threads finished-or-parked, somebody parked, events
-    pending and notification enabled.  Proved from the inductive invariant `J`
+    `process`, DisableQueueNotify scopes are balanced; `processIf` calls ARE allowed) and the
+    repaired destructor, no reachable state has all threads finished-or-parked, somebody parked,
+    events pending and notification enabled.  Proved from the inductive invariant `J`
     (`Conc/WaitDefs.lean`, `Conc/WaitInv.lean`); `C07_obligation` is the invariant's key clause and
-    `C07_window` the mutual-exclusion window the repair relies on.  `C07_no_lost_wakeup_events`
+    `C07_window` the mutual-exclusion window the repairs rely on.  `C07_no_lost_wakeup_events`
     is the corollary that uses the balance hypothesis to discharge `nc = 0`.
   * `C07_counterexample_unlocked` / `C07_same_schedule_repaired` — the destructor that decrements
     outside `queueListMutex` loses a wake-up (defect D3); the repaired one blocks at `dqnDec` while
     the waiter holds the mutex and then wakes it.
-  * `C07_counterexample_processIf_enqueue` / `C07_counterexample_processIf_dqn` — NEW FINDING: with a
-    concurrent `processIf` the theorem is false even for the repaired destructor (see below); this is
-    why `WF` excludes `processIf`.
+  * `C07_processIf_repaired` — defect D11 (processIf put-back lost wake-up), repaired.  `emptyQueue()`
+    — used by `doCanProcess()` in `enqueue` and in `~DisableQueueNotify` — reads `queueList.empty()`
+    and then `queueEmptyCounter` as two separate accesses.  A concurrent `processIf` that has swapped
+    the list out (so the list read sees "empty"), then splices the declined events back and drops its
+    CounterGuard (so the counter read sees 0) makes the notifier conclude "queue empty" although an
+    event was pending throughout.  Before the repair `processIf` itself never notified and the two
+    schedules below ended with the waiter parked for ever, event 0 pending, `nc = 0`.  The repair
+    (`if(doCanNotifyQueueAvailable()) notify_one()` after the put-back splice; in the model the pcs
+    `procPbReadNc`, `procPbNotify` after `procPutBack`) makes `processIf` the notifier of the events it
+    puts back: the same schedules now wake the waiter, which drains the queue.
+    `C07_processIf_no_schedule_loses`: by the main theorem no schedule of the two programs does.
   * `C07_returns_only_enabled`, `C07_read3_observed`, `C07_timeout_only`, `C07_timeout_origin` —
     what a returning `wait` / `waitFor` has observed.
   * `C07_counter`, `C07_disabled` — `nc` counts the live DisableQueueNotify objects; while one is
     alive no wait returns.
   * `C07_nonvacuous_*` — a well-formed three-thread run that ends with the queue drained.
 
-  The statement WITHOUT the `processIf` exclusion, i.e. with
-    `WF' progs := ∀ p ∈ progs, waitsFollowed p ∧ dqnBalanced 0 p`,
-    `theorem C07_no_lost_wakeup' (h : WF' progs) (hr : Reach progs s)
-        (hall : ∀ t th, getT s t = some th → finished th ∨ isParked th)
-        (hex : ∃ t th, getT s t = some th ∧ isParked th) : ¬ (s.queue ≠ [] ∧ s.nc = 0)`
-  is FALSE in the model (and in eventqueue.h): `emptyQueue()` — used by `doCanProcess()` in `enqueue`
-  and in `~DisableQueueNotify` — reads `queueList.empty()` and then `queueEmptyCounter` as two separate
-  accesses.  A concurrent `processIf` that has swapped the list out (so the list read sees "empty"),
-  then splices the declined events back and drops its CounterGuard (so the counter read sees 0) makes
-  the notifier conclude "queue empty" although an event was pending throughout, and `processIf`
-  itself never notifies.  Expected repair in the model: after `procPutBack` (list non-empty again,
-  still before `procDec`) two more micro-steps of the processing thread,
-    `procPbReadNc`  : if `nc = 0` go to `procPbNotify` else go to `procDec`
-    `procPbNotify`  : `notifyOne`, go to `procDec`
-  (i.e. `if(doCanNotifyQueueAvailable()) queueListConditionVariable.notify_one()` after the put-back
-  splice).  With these two pcs added to `holderPc` the proof below goes through unchanged in
-  structure: the put-back step makes its own thread an obligation holder exactly like `enqSplice`
-  does, `procPbReadNc` releases only when `nc ≠ 0`, `procPbNotify` is a `J_notify` step, and
-  `pcModeOK` / `noProcessIf` are no longer needed (threads in `procLoop` are not holders; while they
-  have events in flight the list is empty or other holders exist).  This is TESTED, not proved:
-  `scratch/C07RepairTest.lean` (a copy of the model with the two pcs, `checkJ` with the two extra
-  holders and without the `processIf` restrictions) passes 3000 pseudo-random programs/schedules
-  that include `processIf`, whereas the same harness on the unrepaired model finds the violation;
-  `scratch/C07RandomTest.lean` is the harness for the model as it is (3000 trials, no violation).
+  Why `processIf` needs no restriction (the argument of `J_step` for the new cases): the key clause
+  speaks about `queue ≠ []`; events held by a `processIf` thread in `todo` / `kept` are not in the
+  list.  The put-back step needs `queueListMutex`, so no waiter is between its predicate evaluation
+  and its parking when it happens (`C07_window`); it makes the list non-empty and its own thread the
+  obligation holder (`procPbReadNc`, `procPbNotify` are in `holderPc`), exactly as `enqSplice` does
+  for `enqueue`.  `procPbReadNc` drops the obligation only on reading `nc ≠ 0` (condition false at
+  that moment; the destructor that later brings `nc` to 0 becomes a holder at `dqnDec`), and
+  `procPbNotify` wakes a parked waiter (then `woken` is the holder) or finds nobody parked.
+  The notifier pcs that have read the list as empty (`enqReadEc`, `dqnReadEc`) were never holders —
+  they dropped the obligation when they read the list empty — so their skipping the notification
+  after a put-back in between is harmless: the put-back thread holds the obligation.
+  The invariant was validated on 3000 pseudo-random programs/schedules with `processIf`
+  (`scratch/C07RandomTest.lean`) before it was proved.
 
   Note on `WF`: clause (b) (balanced DisableQueueNotify scopes) is not needed by
   `C07_no_lost_wakeup`, whose conclusion already carries `nc = 0`; it is used by
@@ -76,8 +73,9 @@ theorem C07_obligation {progs : List (List Call)} (hwf : WF progs) {s : State} (
   (J_reach hwf hr).key hc hp
 
 /-- The window: while a waiter is between its predicate evaluation and its parking it holds
-    `queueListMutex`, so neither an enqueue's splice nor (repaired) a DisableQueueNotify destructor's
-    decrement can execute.  (Needs no hypothesis on the programs beyond `WF`.) -/
+    `queueListMutex`, so neither an enqueue's splice, nor (repaired) a DisableQueueNotify
+    destructor's decrement, nor the put-back splice of a `processIf` can execute.  (Needs no
+    hypothesis on the programs beyond `WF`.) -/
 theorem C07_window {progs : List (List Call)} (hwf : WF progs) {s : State} (hr : Reach progs s)
     {u : Tid} {thu : Thread} (hu : getT s u = some thu) (hpcu : holdsQm thu.pc = true)
     {t : Tid} {th : Thread} (hg : getT s t = some th)
@@ -122,7 +120,7 @@ theorem C07_no_lost_wakeup_events (progs : List (List Call)) (hwf : WF progs) (s
     (hex : ∃ t th, getT s t = some th ∧ isParked th = true)
     (hown : ∀ t th, getT s t = some th → isParked th = true → th.dqn = 0) :
     s.queue = [] := by
-  have hB : BInv s := BInv_reach (BInv_init (fun p hp => (hwf p hp).2.1) true) hr
+  have hB : BInv s := BInv_reach (BInv_init (fun p hp => (hwf p hp).2) true) hr
   have hnc : s.nc = 0 := by
     rw [(DInv_reach (DInv_init progs true) hr).1]
     apply sumDqn_zero
@@ -135,6 +133,23 @@ theorem C07_no_lost_wakeup_events (progs : List (List Call)) (hwf : WF progs) (s
   | cons e r =>
     exact absurd ⟨by rw [hq]; exact List.cons_ne_nil _ _, hnc⟩
       (C07_no_lost_wakeup progs hwf s hr hall hex)
+
+/-- The same, for the executable predicate `lostWakeup` used by the counter-examples and the test
+    harness: no reachable state of well-formed programs (with or without `processIf`) is a terminal
+    state with a lost wake-up. -/
+theorem C07_lostWakeup_false (progs : List (List Call)) (hwf : WF progs) (s : State)
+    (hr : Reach progs s) : lostWakeup s = false := by
+  cases hl : lostWakeup s with
+  | false => rfl
+  | true =>
+    exfalso
+    simp only [lostWakeup, Bool.and_eq_true, List.all_eq_true, List.any_eq_true, Bool.or_eq_true,
+      Bool.not_eq_true', beq_iff_eq] at hl
+    obtain ⟨⟨⟨hall, ⟨thp, hmem, hpk⟩⟩, hq⟩, hnc⟩ := hl
+    obtain ⟨u, hu⟩ := List.getElem?_of_mem hmem
+    refine C07_no_lost_wakeup progs hwf s hr (fun t th ht => hall th (List.mem_of_getElem? ht))
+      ⟨u, thp, hu, hpk⟩ ⟨?_, hnc⟩
+    intro h0; rw [h0] at hq; cases hq
 
 /-! ## 2. Counter-examples -/
 
@@ -168,42 +183,66 @@ theorem C07_same_schedule_repaired :
      s.consumed = [(0, .dispatched, 0)] ∧ lostWakeup s = false) := by
   decide
 
-/-- NEW FINDING (enqueue side).  Thread 0 waits, thread 1 enqueues, thread 2 runs a `processIf` that
-    declines event 0.  Thread 1 splices event 0 in; thread 2 swaps the list out; thread 1 reads
-    "list empty"; thread 2 puts event 0 back and decrements `queueEmptyCounter`; thread 1 reads
-    `ec = 0` and does not notify.  Well-formed apart from the `processIf`, repaired destructor. -/
+/-- D11, enqueue side.  Thread 0 waits, thread 1 enqueues, thread 2 runs a `processIf` that declines
+    event 0.  Thread 0 parks on the empty queue; thread 1 splices event 0 in; thread 2 swaps the list
+    out and declines event 0; thread 1 reads "list empty"; thread 2 puts event 0 back, (NEW) reads
+    `nc = 0` and notifies — waking thread 0 —, and decrements `queueEmptyCounter`; thread 1 reads
+    `ec = 0` and does not notify. -/
 def progsPIe : List (List Call) := [[.wait, .process], [.enqueue], [.processIf false]]
 
 def schedPIe : List (Tid × Nat) :=
   List.replicate 5 (0,1) ++ [(1,0),(1,0)] ++ List.replicate 6 (2,0) ++ [(1,0)] ++
-  List.replicate 3 (2,0) ++ [(1,0),(1,0)]
+  List.replicate 4 (2,0) ++ [(1,0)]
 
-theorem C07_counterexample_processIf_enqueue :
-    let s := exec (init progsPIe true) schedPIe
-    (∀ p ∈ progsPIe, waitsFollowed p = true ∧ dqnBalanced 0 p = true) ∧
-    s.threads.map (·.pc) = [.parked false, .idle, .idle] ∧
-    s.threads.map finished = [false, true, true] ∧
-    s.queue = [0] ∧ s.nc = 0 ∧ s.ec = 0 ∧ lostWakeup s = true := by
-  decide
-
-/-- NEW FINDING (destructor side).  Thread 1 holds a DisableQueueNotify while thread 3 enqueues event
-    0 and thread 0 parks; thread 2's `processIf` swaps the list out; the (repaired) destructor of
-    thread 1 decrements `nc` to 0, reads `nc = 0`, reads "list empty"; thread 2 puts event 0 back and
-    decrements `ec`; the destructor reads `ec = 0` and does not notify. -/
+/-- D11, destructor side.  Thread 1 holds a DisableQueueNotify while thread 3 enqueues event 0 and
+    thread 0 parks; thread 2's `processIf` swaps the list out and declines event 0; the (repaired)
+    destructor of thread 1 decrements `nc` to 0, reads `nc = 0`, reads "list empty"; thread 2 puts
+    event 0 back, (NEW) reads `nc = 0` and notifies — waking thread 0 —, and decrements `ec`; the
+    destructor reads `ec = 0` and does not notify. -/
 def progsPId : List (List Call) :=
   [[.wait, .process], [.dqnBegin, .dqnEnd], [.processIf false], [.enqueue]]
 
 def schedPId : List (Tid × Nat) :=
   [(1,0),(1,0)] ++ List.replicate 4 (3,0) ++ List.replicate 5 (0,1) ++ List.replicate 6 (2,0) ++
-  List.replicate 4 (1,0) ++ [(2,0),(2,0)] ++ [(1,0)]
+  List.replicate 4 (1,0) ++ List.replicate 4 (2,0) ++ [(1,0)]
 
-theorem C07_counterexample_processIf_dqn :
-    let s := exec (init progsPId true) schedPId
-    (∀ p ∈ progsPId, waitsFollowed p = true ∧ dqnBalanced 0 p = true) ∧
-    s.threads.map (·.pc) = [.parked false, .idle, .idle, .idle] ∧
-    s.threads.map finished = [false, true, true, true] ∧
-    s.queue = [0] ∧ s.nc = 0 ∧ s.ec = 0 ∧ lostWakeup s = true := by
+/-- **Defect D11 repaired.**  The two schedules that lost a wake-up before `processIf` notified
+    after its put-back (they ended in `[.parked false, .idle, …]`, `queue = [0]`, `nc = 0`,
+    `lostWakeup = true`): in both, right before the put-back the waiter is parked, the notifier has
+    read the list as empty and thread 2 is at `procPutBack [0]`; at the end of the schedule the
+    notifier has skipped its notification (`ec = 0`) but the waiter has been woken by thread 2; eleven
+    more steps of thread 0 return from `wait` and drain the queue.  Both programs are `WF`. -/
+theorem C07_processIf_repaired :
+    (WF progsPIe ∧
+     (let s := exec (init progsPIe true) (schedPIe.take 14)
+      s.threads.map (·.pc) = [.parked false, .enqReadEc, .procPutBack [0] false] ∧ s.queue = []) ∧
+     (let s := exec (init progsPIe true) schedPIe
+      s.threads.map (·.pc) = [.woken false false, .idle, .idle] ∧
+      s.threads.map finished = [false, true, true] ∧
+      s.queue = [0] ∧ s.nc = 0 ∧ s.ec = 0 ∧ lostWakeup s = false ∧ checkJ s = true) ∧
+     (let s := exec (init progsPIe true) (schedPIe ++ List.replicate 11 (0,1))
+      s.threads.map finished = [true, true, true] ∧ s.queue = [] ∧
+      s.consumed = [(0, .dispatched, 0)] ∧
+      s.threads.map (·.rets) = [[.unit, .bool true], [.unit], [.bool false]])) ∧
+    (WF progsPId ∧
+     (let s := exec (init progsPId true) (schedPId.take 21)
+      s.threads.map (·.pc) = [.parked false, .dqnReadEc, .procPutBack [0] false, .idle] ∧
+      s.queue = [] ∧ s.nc = 0) ∧
+     (let s := exec (init progsPId true) schedPId
+      s.threads.map (·.pc) = [.woken false false, .idle, .idle, .idle] ∧
+      s.threads.map finished = [false, true, true, true] ∧
+      s.queue = [0] ∧ s.nc = 0 ∧ s.ec = 0 ∧ lostWakeup s = false ∧ checkJ s = true) ∧
+     (let s := exec (init progsPId true) (schedPId ++ List.replicate 11 (0,1))
+      s.threads.map finished = [true, true, true, true] ∧ s.queue = [] ∧
+      s.consumed = [(0, .dispatched, 0)] ∧
+      s.threads.map (·.rets) = [[.unit, .bool true], [.unit, .unit], [.bool false], [.unit]])) := by
   decide
+
+/-- … and by the main theorem NO schedule of these two programs ends in a lost wake-up. -/
+theorem C07_processIf_no_schedule_loses (sched : List (Tid × Nat)) :
+    lostWakeup (exec (init progsPIe) sched) = false ∧ lostWakeup (exec (init progsPId) sched) = false :=
+  ⟨C07_lostWakeup_false progsPIe (by decide) _ ⟨sched, rfl⟩,
+   C07_lostWakeup_false progsPId (by decide) _ ⟨sched, rfl⟩⟩
 
 /-! ## 3. What a returning `wait` / `waitFor` has observed
 
